@@ -2536,18 +2536,21 @@ _cdata_getslicearg(CDataObject *cd, PySliceObject *slice, Py_ssize_t bounds[])
     Py_ssize_t start, stop;
     CTypeDescrObject *ct;
 
-    start = PyLong_AsSsize_t(slice->start);
-    if (start == -1 && PyErr_Occurred()) {
-        if (slice->start == Py_None)
-            PyErr_SetString(PyExc_IndexError, "slice start must be specified");
+    if (slice->start == Py_None) {
+        PyErr_SetString(PyExc_IndexError, "slice start must be specified");
         return NULL;
     }
-    stop = PyLong_AsSsize_t(slice->stop);
-    if (stop == -1 && PyErr_Occurred()) {
-        if (slice->stop == Py_None)
-            PyErr_SetString(PyExc_IndexError, "slice stop must be specified");
+    /* like x[i]: an index that does not fit a Py_ssize_t is an IndexError */
+    start = PyNumber_AsSsize_t(slice->start, PyExc_IndexError);
+    if (start == -1 && PyErr_Occurred())
+        return NULL;
+    if (slice->stop == Py_None) {
+        PyErr_SetString(PyExc_IndexError, "slice stop must be specified");
         return NULL;
     }
+    stop = PyNumber_AsSsize_t(slice->stop, PyExc_IndexError);
+    if (stop == -1 && PyErr_Occurred())
+        return NULL;
     if (slice->step != Py_None) {
         PyErr_SetString(PyExc_IndexError, "slice with step not supported");
         return NULL;
